@@ -87,8 +87,17 @@ impl<T> Definitions<T> {
 
         if !self.inner.contains_key(&key) {
             self.inner.insert(key.clone(), None);
-            let schema = build_schema(self)?;
-            self.inner.insert(key, Some(schema));
+            match build_schema(self) {
+                Ok(schema) => {
+                    self.inner.insert(key, Some(schema));
+                }
+                Err(e) => {
+                    // Do not leave the marker behind: a later lookup would mistake it for a
+                    // definition that exists.
+                    self.inner.remove(&key);
+                    return Err(e);
+                }
+            }
         }
 
         Ok(reference)
